@@ -769,6 +769,13 @@ def r18_error_term_interval_is_closed(ck, P, rid='C12-R18'):
                 y = f.v(f.strip_casts(x.a[0]))
                 if y is not None and y.op in ('add', 'sub') and y.ty == 'i64':
                     NEs.add(y.i)
+        # ... and the sums that advance the loaded error term, whether or not they are stored back
+        for x in f.insts():
+            if x.op in ('add', 'sub') and x.ty == 'i64':
+                for a in x.a:
+                    y = f.v(f.strip_casts(a)) if a[0] == 'v' else None
+                    if y is not None and y.op == 'load' and f.last_field(f.path(y.a[0])) == 'pixman_edge.e':
+                        NEs.add(x.i)
         if not NEs:
             raise AnalysisBroken('%s: the advanced error term of pixman_edge_step was not recognised' % rid)
         def lin(o, d=0):
